@@ -332,7 +332,7 @@ func classM(c MCase) fx.Class {
 }
 
 func TestManagerChains(t *testing.T) {
-	fx.Run(t, fx.Spec[MCase]{Prop: "C15", Name: "manager_chains", Quick: 6000, Thorough: 200000, Gen: genM, Run: runM, Class: classM})
+	fx.Run(t, fx.Spec[MCase]{Prop: "C15", Name: "manager_chains", Journal: true, Quick: 6000, Thorough: 200000, Gen: genM, Run: runM, Class: classM})
 }
 
 var _ = time.Second
